@@ -240,7 +240,7 @@ fn compare_outs(a: &[(Out, Vec<(u64, usize)>)], b: &[(Out, Vec<(u64, usize)>)], 
 fn main() {
     let cli = Cli::parse();
     let mut rep = Report::new("C03", &cli);
-    rep.note("rule", json!("case = (tracker kind, metric, shards 1..4, max_idle 0..4, auto-waste period) x random history of 40..200 operations over 1..3 scenes: predict (possibly empty) / batches, skip_epochs, wasted, idle_tracks, clear_wasted, set_auto_waste. A lifecycle reference model advanced only from arguments and returned records is the oracle after EVERY operation: epochs per scene; no expired track continued; wasted() returns exactly the expired not-yet-handed-out tracks, each once over the whole history, with the model's length / last boxes; idle_tracks == unexpired tracks of the scene not updated in the current epoch; active / wasted shard statistics equal the physical contents of the live / wasted store and together account for every track not handed out or cleared (the ids clear_wasted removes are observed just before the call); every track is in exactly one place; sum of lengths == detections submitted. GC-timing differential: the same history without clear_wasted is re-run with auto-waste period 0, 1, 100 and with set_auto_waste calls sprinkled in; records (up to id bijection), wasted sets, idle sets and epochs must be identical. Non-trivial history: at least one expiry and one hand-out; distinct by history hash."));
+    rep.note("rule", json!("case = (tracker kind, metric, shards 1..4, max_idle 0..4, auto-waste period) x random history of 40..200 operations over 1..3 scenes: predict (possibly empty) / batches, skip_epochs, wasted, idle_tracks, clear_wasted, set_auto_waste. A lifecycle reference model advanced only from arguments and returned records is the oracle after EVERY operation: epochs per scene; no expired track continued; wasted() returns exactly the expired not-yet-handed-out tracks, each once over the whole history, with the model's length / last boxes; idle_tracks == unexpired tracks of the scene not updated in the current epoch; active / wasted shard statistics equal the physical contents of the live / wasted store and together account for every track not handed out or cleared (the ids clear_wasted removes are observed just before the call); every track is in exactly one place; sum of lengths == detections submitted. GC-timing differential: the same history without clear_wasted is re-run with auto-waste period 0, 1, 100 and with set_auto_waste calls sprinkled in; records (up to id bijection), wasted sets, idle sets and epochs must be identical. One stress case per process (8 voting threads, 48 scenes per batch, max_idle 0) checks hand-out and accounting while id allocation collides as often as possible. Non-trivial history: at least one expiry and one hand-out; distinct by history hash."));
     rep.note("assumptions", json!(["batch trackers: lifecycle calls only between fully retrieved batches; a batch cannot express an empty scene"]));
     let n = cli.cases(320, 6000);
     for idx in cli.index_range(n) {
@@ -262,6 +262,7 @@ fn main() {
             low_quality: false,
             avoid_coincident: kind.is_visual() && (cfg.vis.own_use + cfg.vis.own_collect > 0.0),
             low_conf: false,
+            vary_nobj: false,
         };
         let len = if cli.small { 8 } else { 40 + rng.usize(if cli.thorough() { 161 } else { 41 }) };
         let h = HistOpts { len, lifecycle_ops: true, clear_wasted: idx % 3 != 0, auto_waste_ops: rng.chance(0.5), batches: kind.is_batch(), empty_calls: true };
@@ -325,6 +326,61 @@ fn main() {
                 if let Some(e) = compare_outs(&ref_out, &out, true) {
                     rep.violation(&format!("C03/{:?}/gc-timing-observable", kind), idx, json!({"cfg": cfg.js(), "variant": variant, "difference": e}));
                     break;
+                }
+            }
+        }
+    }
+    // ---- stress case (per process): 8 voting threads, 48 scenes per batch, max_idle 0, every detection a new track in
+    // every batch: after each batch wasted() must hand out exactly the tracks of the previous batch, each once, and the
+    // statistics must account for every track - id allocation of different voting threads collides as often as it can
+    if !cli.small && cli.replay_index.is_none() {
+        for kind in [Kind::BatchSort, Kind::BatchVisual] {
+            let mut rng = Rng::for_case(cli.seed, cli.shard, 1 << 40);
+            let mut cfg = gen_cfg(&mut rng, kind);
+            cfg.max_idle = 0;
+            cfg.shards = 2;
+            cfg.voting_shards = 8;
+            cfg.constraints = None;
+            cfg.vis.own_use = 0.0;
+            cfg.vis.own_collect = 0.0;
+            cfg.pos = PosMetric::IoU(0.3);
+            cfg.auto_waste = None;
+            let scenes = 48u64;
+            let mut trk = AnyTracker::new(&cfg);
+            let mut life = Life::new(0);
+            let nb = if cli.thorough() { 400 } else { 90 };
+            rep.count("stress_cases");
+            'stress: for b in 0..nb {
+                let batch: Vec<(u64, Vec<Det>)> = (0..scenes)
+                    .map(|s| {
+                        let dets = (0..2)
+                            .map(|k| Det { b: DBox { xc: 100.0 + 500.0 * k as f32 + 97.0 * (b % 7) as f32, yc: 100.0 + 311.0 * ((b + k) % 5) as f32, angle: None, aspect: 0.5, h: 40.0, conf: 1.0 }, custom: Some((b * 1000 + k) as i64), feature: Some(vec![k as f32, 1.0]), quality: Some(1.0), truth: 0 })
+                            .collect();
+                        (s, dets)
+                    })
+                    .collect();
+                let out = trk.predict_batch(&batch);
+                let expired_before: BTreeSet<u64> = life.tracks.iter().filter(|(_, t)| t.place == Place::Live).map(|(i, _)| *i).collect();
+                for (scene, recs) in &out {
+                    let dets = &batch.iter().find(|c| c.0 == *scene).unwrap().1;
+                    for (sig, d) in life.on_predict(*scene, dets, recs, false) {
+                        rep.violation(&format!("C03/{:?}/stress/{}", kind, sig), 1 << 40, json!({"batch": b, "scene": scene, "detail": d}));
+                        break 'stress;
+                    }
+                    rep.add("stress_records", recs.len() as u64);
+                }
+                let w: BTreeSet<u64> = trk.wasted().iter().map(|x| x.id).collect();
+                if w != expired_before {
+                    rep.violation(&format!("C03/{:?}/stress/wasted-set-differs", kind), 1 << 40, json!({"batch": b, "returned": w.len(), "expected": expired_before.len(), "missing": expired_before.difference(&w).take(5).collect::<Vec<_>>(), "unexpected": w.difference(&expired_before).take(5).collect::<Vec<_>>()}));
+                    break 'stress;
+                }
+                for i in &w {
+                    life.tracks.get_mut(i).unwrap().place = Place::HandedOut;
+                }
+                let held: usize = trk.active_stats().iter().sum::<usize>() + trk.wasted_stats().iter().sum::<usize>();
+                if held != life.held() {
+                    rep.violation(&format!("C03/{:?}/stress/accounting", kind), 1 << 40, json!({"batch": b, "stats": held, "model": life.held()}));
+                    break 'stress;
                 }
             }
         }
